@@ -271,8 +271,8 @@ type ELevel1 struct {
 	Duo int64
 }
 
-type EOne struct{ EVal }       // plain embedding
-type EOuterWins struct {       // shallower field wins
+type EOne struct{ EVal } // plain embedding
+type EOuterWins struct { // shallower field wins
 	Val int16
 	EVal
 }
@@ -330,8 +330,8 @@ type ELevel1p struct {
 	Duo int64
 }
 type EDeepPtr struct{ *ELevel1p } // two levels of embedded pointers
-type EDeep struct{ ELevel1 } // two levels of embedding (val at depth 3, duo at depth 2)
-type EShallow struct {      // val at depth 2 hides val at depth 3
+type EDeep struct{ ELevel1 }      // two levels of embedding (val at depth 3, duo at depth 2)
+type EShallow struct {            // val at depth 2 hides val at depth 3
 	ELevel1
 	EVal
 }
